@@ -56,7 +56,7 @@ var c14ProgramsMore = []string{
 	`BEGIN { print "only begin" }`,
 }
 
-var c14Inputs = []string{`[1,2]`, `{"a":[3],"b":{"c":1}}`, `5`, "[1]\n{\"a\":2,\"b\":3}", ``, `[1,`, `{"a":["100% %s %d","%v"],"b":{"50%":"a%20b"}}`}
+var c14Inputs = []string{`[1,2]`, `{"a":[3],"b":{"c":1}}`, `5`, "[1]\n{\"a\":2,\"b\":3}", ``, `[1,`, `{"a":["100% %s %d","%v"],"b":{"50%":"a%20b"}}`, "\xef\xbb\xbf[1,2]"}
 var c14InputsMore = []string{`null`, `{"a":{"a":[]},"b":"s"}`, "1 2 3\n", `[[1,2],[3]]`, `]`, `{"a":1e400}`}
 
 var c14Selectors = [][]string{nil, {"$.a"}, {"$.a", "$.b"}, {"$.a.nope()"}, {"$[5]"}}
@@ -390,7 +390,7 @@ func c14SelectorConcat(c *fw.Ctx, prog, input, e1, e2 string) *fw.Violation {
 func init() {
 	fw.Register(&fw.Prop{
 		ID: "C14",
-		Rule: "the full product {inline, -f} x {stdin, one file, two files, a missing file, a directory as file, the same file twice, /dev/stdin as a named file, a named pipe filled after it is opened, a /proc file whose reported size is 0} x {no selector, one, two, a failing one, an index past the end} x {no -o, -o -, -o FILE, -o into a missing directory} x 17 programs (printf without a final newline, empty, replacing $, silent, printing, mutating $, BEGINFILE replacing $, exit, syntax error, runtime error before / after output, $file, END, exit in BEGIN, state across values, CR LF / lone CR / LF CR inside literals and between statements) x 7 inputs (array, object, scalar, two values, empty, malformed, strings full of % directives), on the real binary; " +
+		Rule: "the full product {inline, -f} x {stdin, one file, two files, a missing file, a directory as file, the same file twice, /dev/stdin as a named file, a named pipe filled after it is opened, a /proc file whose reported size is 0} x {no selector, one, two, a failing one, an index past the end} x {no -o, -o -, -o FILE, -o into a missing directory} x 17 programs (printf without a final newline, empty, replacing $, silent, printing, mutating $, BEGINFILE replacing $, exit, syntax error, runtime error before / after output, $file, END, exit in BEGIN, state across values, CR LF / lone CR / LF CR inside literals and between statements) x 8 inputs (array, object, scalar, two values, empty, malformed, strings full of % directives, a byte order mark before the document), on the real binary; " +
 			"oracle: the in-process library run of the same program, selectors and inputs (stdout, outcome, JSON output) plus the wrapper laws (exit 0 iff success and nothing refused, diagnostic on stderr otherwise, no stack trace, -o FILE == bytes of -o -, a missing file refused before any output); " +
 			"-r E1 -r E2 == -r E1 followed by -r E2 for 4 stateless (mutating) programs x 2 documents x all ordered pairs of 5 overlapping selectors; and -r E == BEGINFILE { $ = E } for every program without BEGINFILE/ENDFILE x every input x 12 selectors (three end in an index past the end or under a missing member, three call num / json / a method); thorough doubles the three alphabets; a state is (source, -o mode, selector list, -f, library outcome); non-trivial = same",
 		Plan:  func(t fw.Tier) int { return 2 * c14NSource * c14NOut },
@@ -422,7 +422,7 @@ func init() {
 				}
 				for _, prog := range al.progs {
 					for _, in := range al.inputs {
-						for _, sel := range []string{"$.a", "$.b", "$", "$.a.a", "[$, 1]", "$.nope.x()", "$[5]", "$.a[4]", "$.zz.k[2]", "num($.a[0])", "json($.a)", "$.a.length()"} {
+						for _, sel := range []string{"$.a", "$.b", "$", "$.a.a", "[$, 1]", "$.nope.x()", "$[5]", "$.a[4]", "$.zz.k[2]", "num($.a[0])", "json($.a)", "$.a.length()", "match ($.a) { v => v }", "match ($) { [x] => x, o => o.b }"} {
 							prog, in, sel := prog, in, sel
 							c.Do(func() any { return map[string]string{"form": "rootsel", "prog": prog, "input": in, "sel": sel} }, func() *fw.Violation { return c14RootSelector(c, prog, in, sel) })
 						}
